@@ -66,6 +66,7 @@ class ScipySolver(SolverBase):
 
         shape = state.data.shape
         self.info["dt"] = dt
+        self.info["dt_adaptive"] = True  # scipy chooses its steps and stops at `t_end`
         self.info["steps"] = 0
         self.info["stochastic"] = False
 
